@@ -248,30 +248,84 @@ def internal_state(s):
     return digest(c.finish(st))
 
 
-def main():
-    out = Outcome('C17', 'exploration')
-    methods = [n for n, f in inspect.getmembers(RPCInterface, inspect.isfunction) if not n.startswith('_')
-               and n != 'get_logger_levels']
-    unknown = [m for m in methods if m not in GATE]
-    if unknown:
-        out.report({'clause': 'method-without-documented-gate', 'signature': 'C17:undocumented:' + unknown[0],
-                    'methods': unknown}, {'driver': 'C17', 'config': {}, 'events': []})
+def judge(state, role, idx, blob, method, args, pfaults):
+    """One cell of the matrix.  Returns (violations, result of the call)."""
+    allowed = GATE.get(method)
+    viols = []
+    w = W.restore(blob)
+    s = w.sups[idx]
+    before = observable(s)
+    ibefore = internal_state(s)
+    others_before = [observable(x) for x in w.sups if x is not s and x.alive]
+    w.drain_observations()
+    res = w.user_rpc(idx, method, args)
+    obs = w.drain_observations()
+    kind = res[0]
+    code = res[1] if kind == 'fault' else None
+    if kind == 'exc':
+        return viols, res    # internal error: judged by C16
+    gate_open = allowed is None or state in allowed
+    if state == 'FINAL' and allowed is FROM_DISTRIBUTION:
+        gate_open = None    # "from DISTRIBUTION on": FINAL is left open by the statement
+    if method == 'end_sync' and role != 'user-option' and state == 'SYNCHRONIZATION':
+        gate_open = None    # needs the USER option: NOT_APPLICABLE otherwise (not a state matter)
+    if gate_open is False:
+        if code != BAD_STATE:
+            viols.append({'clause': 'served-outside-documented-states',
+                          'signature': f'C17:gate-open:{method}:{state}', 'result': list(res)})
+    elif gate_open is True:
+        if code == BAD_STATE and not (method == 'restart_sequence' or method in ('restart', 'shutdown')
+                                      or method == 'end_sync'):
+            viols.append({'clause': 'rejected-in-documented-state',
+                          'signature': f'C17:gate-closed:{method}:{state}', 'result': list(res)})
+        elif pfaults and kind == 'fault' and code not in pfaults and code != BAD_STATE:
+            viols.append({'clause': 'wrong-fault-for-invalid-parameter',
+                          'signature': f'C17:param-fault:{method}:{sorted(pfaults)}-expected:{code}',
+                          'result': list(res), 'args': list(args)})
+        elif pfaults and kind == 'ok':
+            viols.append({'clause': 'invalid-parameter-accepted',
+                          'signature': f'C17:param-accepted:{method}:{sorted(pfaults)}-expected',
+                          'result': str(res)[:100], 'args': list(args)})
+    # a rejected request has no effect at all
+    if kind == 'fault' and code in (BAD_STATE, BAD_NAME, INCORRECT_PARAMETERS, NOT_MANAGED):
+        effects = []
+        if [e for e in obs['emitted']]:
+            effects.append('emitted:' + obs['emitted'][0]['req'])
+        if obs['transport']:
+            effects.append('rpc:' + obs['transport'][0]['name'])
+        if any(q for q in w.channels.values()) and not any(q for q in W.restore(blob).channels.values()):
+            effects.append('message-queued')
+        W.activate(w)
+        if observable(s) != before:
+            effects.append('status-changed')
+        if internal_state(s) != ibefore:
+            effects.append('jobs-changed')
+        if [observable(x) for x in w.sups if x is not s and x.alive] != others_before:
+            effects.append('peer-status-changed')
+        if obs['fsm']:
+            effects.append('state-change')
+        if effects:
+            viols.append({'clause': 'rejected-request-has-effect',
+                          'signature': f'C17:effect:{method}:{code}:{effects[0]}', 'effects': effects,
+                          'result': list(res)})
+    return viols, res
+
+
+def all_snapshots(t, cov=None):
+    """{(state, role label): (instance index, snapshot)}: hand-made quiescent states, the USER-option state and one
+    snapshot per class of the exhaustive membership exploration."""
+    cov = cov if cov is not None else {}
     blobs = {k: (0 if k[1] == 'master' else 1, b) for k, b in capture_states().items()}
-    cov = out.coverage
     cov['states_reached'] = sorted(f'{s}/{r}' for s, r in blobs)
     # every (local state, role, believed Master state) class reachable in an exhaustive membership exploration
     gen = _Collector()
-    for cls, (i, blob) in gen.run(tier()).items():
+    for cls, (i, blob) in gen.run(t).items():
         blobs[(cls[0], f'{cls[1]}[master_state={cls[2]}]')] = (i, blob)
     cov['generator'] = gen.stats
     cov['states'] = sum(x['states'] for x in gen.stats)
     cov['transitions'] = sum(x['transitions'] for x in gen.stats)
     cov['traces_validated_against_impl'] = sum(x['validated'] for x in gen.stats)
     cov['classes_from_generator'] = sorted(f'{c[0]}/{c[1]}/{c[2]}' for c in gen.found)
-    calls = 0
-    distinct = set()
-    samples = []
-    seen_sig = set()
     # USER synchronisation for end_sync
     wu = world_for(user=True)
     for _ in range(3):
@@ -280,21 +334,30 @@ def main():
             wu.drain()
     if wu.sups[0].fsm.state.name == 'SYNCHRONIZATION':
         blobs[('SYNCHRONIZATION', 'user-option')] = (0, W.snapshot(wu))
+    return blobs
+
+
+def main():
+    out = Outcome('C17', 'exploration')
+    methods = [n for n, f in inspect.getmembers(RPCInterface, inspect.isfunction) if not n.startswith('_')
+               and n != 'get_logger_levels']
+    unknown = [m for m in methods if m not in GATE]
+    if unknown:
+        out.report({'clause': 'method-without-documented-gate', 'signature': 'C17:undocumented:' + unknown[0],
+                    'methods': unknown}, {'driver': 'C17', 'config': {}, 'events': []})
+    cov = out.coverage
+    blobs = all_snapshots(tier(), cov)
+    calls = 0
+    distinct = set()
+    samples = []
+    seen_sig = set()
     for (state, role), (idx, blob) in sorted(blobs.items()):
         for method in methods:
             g = grid(method)
             if g is None:
                 continue
-            allowed = GATE.get(method)
             for args, pfaults in g:
-                w = W.restore(blob)
-                s = w.sups[idx]
-                before = observable(s)
-                ibefore = internal_state(s)
-                others_before = [observable(x) for x in w.sups if x is not s and x.alive]
-                w.drain_observations()
-                res = w.user_rpc(idx, method, args)
-                obs = w.drain_observations()
+                viols, res = judge(state, role, idx, blob, method, args, pfaults)
                 calls += 1
                 case = {'state': state, 'role': role, 'method': method, 'args': list(args)}
                 kind = res[0]
@@ -302,57 +365,10 @@ def main():
                 distinct.add((state, method, kind, code))
                 if len(samples) < 4 and kind == 'fault' and method in ('start_application', 'conciliate'):
                     samples.append(dict(case, result=res))
-
-                def report(v):
+                for v in viols:
                     if v['signature'] not in seen_sig:
                         seen_sig.add(v['signature'])
-                        out.report(v, {'driver': 'C17', 'config': {}, 'events': [case]})
-                if kind == 'exc':
-                    continue    # internal error: judged by C16
-                gate_open = allowed is None or state in allowed
-                if state == 'FINAL' and allowed is FROM_DISTRIBUTION:
-                    gate_open = None    # "from DISTRIBUTION on": FINAL is left open by the statement
-                if method == 'end_sync' and role != 'user-option' and state == 'SYNCHRONIZATION':
-                    gate_open = None    # needs the USER option: NOT_APPLICABLE otherwise (not a state matter)
-                if gate_open is False:
-                    if code != BAD_STATE:
-                        report({'clause': 'served-outside-documented-states',
-                                'signature': f'C17:gate-open:{method}:{state}', 'result': list(res)})
-                elif gate_open is True:
-                    if code == BAD_STATE and not (method == 'restart_sequence' or method in ('restart', 'shutdown')
-                                                  or method == 'end_sync'):
-                        report({'clause': 'rejected-in-documented-state',
-                                'signature': f'C17:gate-closed:{method}:{state}', 'result': list(res)})
-                    elif pfaults and kind == 'fault' and code not in pfaults and code != BAD_STATE:
-                        report({'clause': 'wrong-fault-for-invalid-parameter',
-                                'signature': f'C17:param-fault:{method}:{sorted(pfaults)}-expected:{code}',
-                                'result': list(res), 'args': list(args)})
-                    elif pfaults and kind == 'ok':
-                        report({'clause': 'invalid-parameter-accepted',
-                                'signature': f'C17:param-accepted:{method}:{sorted(pfaults)}-expected',
-                                'result': str(res)[:100], 'args': list(args)})
-                # a rejected request has no effect at all
-                if kind == 'fault' and code in (BAD_STATE, BAD_NAME, INCORRECT_PARAMETERS, NOT_MANAGED):
-                    effects = []
-                    if [e for e in obs['emitted']]:
-                        effects.append('emitted:' + obs['emitted'][0]['req'])
-                    if obs['transport']:
-                        effects.append('rpc:' + obs['transport'][0]['name'])
-                    if any(q for q in w.channels.values()) and not any(q for q in W.restore(blob).channels.values()):
-                        effects.append('message-queued')
-                    W.activate(w)
-                    if observable(s) != before:
-                        effects.append('status-changed')
-                    if internal_state(s) != ibefore:
-                        effects.append('jobs-changed')
-                    if [observable(x) for x in w.sups if x is not s and x.alive] != others_before:
-                        effects.append('peer-status-changed')
-                    if obs['fsm']:
-                        effects.append('state-change')
-                    if effects:
-                        report({'clause': 'rejected-request-has-effect',
-                                'signature': f'C17:effect:{method}:{code}:{effects[0]}', 'effects': effects,
-                                'result': list(res)})
+                        out.report(v, {'driver': 'C17', 'config': {'tier': tier()}, 'events': [case]})
     cov['evaluations'] = calls
     cov['distinct_nontrivial'] = len(distinct)
     cov['methods'] = len(methods)
@@ -371,5 +387,17 @@ def main():
 
 
 def replay(payload):
-    print(payload['events'])
-    return 0
+    """Rebuilds the snapshots (deterministic) and re-evaluates the recorded cell of the matrix."""
+    case = payload['events'][0]
+    blobs = all_snapshots(payload.get('config', {}).get('tier', 'quick'))
+    key = (case['state'], case['role'])
+    if key not in blobs:
+        print('state class not reached any more:', key)
+        return 2
+    idx, blob = blobs[key]
+    args = tuple(case['args'])
+    pf = [f for a_, f in (grid(case['method']) or []) if tuple(a_) == args]
+    viols, res = judge(case['state'], case['role'], idx, blob, case['method'], args, pf[0] if pf else set())
+    print(case, '->', res)
+    print(json.dumps(viols, indent=1, default=str)[:2000])
+    return 1 if payload.get('signature') in [v['signature'] for v in viols] else 0
